@@ -14,7 +14,7 @@ from harness.c09 import r_tok
 from harness.common import tok_str
 from vk.core import Case, Ctx
 
-GEN_MODULES: List[str] = ["C09Gena", "C10Notify"]
+GEN_MODULES: List[str] = ["C09Gena", "C10Notify", "C08Types"]
 MANIFEST = {
     "design_ref": "§5 C11",
     "text": ("Lean theorems over the event-driven model (subscribe started / NOTIFY arrived / SUBSCRIBE response arrived; "
@@ -87,10 +87,16 @@ async def settle():
 
 async def _run(recipe, lines, tags):
     svc_vars = recipe.get("vars", V2)
-    rq, eh, svcs = await c09env.make_env(svc_vars)
-    c09env.install_clock()
     lines.append(f"cfg {tok_str(c09env.HOST)} {tok_str(c09env.CALLBACK)}")
+    lines.extend(c09env.fdecl_lines(svc_vars, texts_of(recipe)))
     lines.extend(c09env.decl_lines(svc_vars))
+    try:
+        rq, eh, svcs = await c09env.make_env(svc_vars)
+    except Exception as e:  # noqa: BLE001
+        lines.append("factoryfail " + c09env.exc_tok(e))
+        tags.add("factoryfail")
+        return False
+    c09env.install_clock()
     cb_count = [0] * len(svcs)
     for i, s_ in enumerate(svcs):
         def _cb(svc, vs, i_=i):
@@ -189,6 +195,16 @@ async def _run(recipe, lines, tags):
     return nontrivial
 
 
+def texts_of(recipe):
+    out = []
+    for op in recipe["ops"]:
+        if op[0] == "notify" and op[4] != "#":
+            for el in op[4]:
+                for ns, name, text in el["kids"]:
+                    out.append((name, text))
+    return out
+
+
 def run_recipe(ctx: Ctx, recipe: Dict[str, Any], cid: str) -> Case:
     lines: List[str] = []
     tags = set()
@@ -258,9 +274,11 @@ def exhaustive(ctx: Ctx):
 
 NAMES = ["A", "B", "C", "D", "Vol"]
 KINDS = [{"type": "ui2", "min": 0, "max": 100}, {"type": "i4"}, {"type": "boolean"}, {"type": "string"},
-         {"type": "string", "allowed": ["x", "y"]}]
+         {"type": "string", "allowed": ["x", "y"]}, {"type": "dateTime.tz"}, {"type": "r8", "min": "0.5"}]
 TEXTS = {"ui2": ["1", "50", "100", "7", "101", "abc", ""], "i4": ["-3", "0", "12", " 4 ", "zz"],
-         "boolean": ["1", "0", "true", "no", "?"], "string": ["x", "y", "hello", "", "z"]}
+         "boolean": ["1", "0", "true", "no", "?"], "string": ["x", "y", "hello", "", "z"],
+         "dateTime.tz": ["2021-03-04T05:06:07-05:00", "2021-03-04T05:06:07+0100", "2021-03-04T05:06:07Z", "2021-03-04T05:06:07", "x"],
+         "r8": ["1.5", "0.25", "nan", "abc", " 2 "]}
 
 
 def rand_recipe(rng):
